@@ -33,6 +33,7 @@ import (
 	nmproc "github.com/nspcc-dev/neofs-node/pkg/innerring/processors/netmap"
 	cntClient "github.com/nspcc-dev/neofs-node/pkg/morph/client/container"
 	nmClient "github.com/nspcc-dev/neofs-node/pkg/morph/client/netmap"
+	fschaincontracts "github.com/nspcc-dev/neofs-node/pkg/morph/contracts"
 	"github.com/nspcc-dev/neofs-node/pkg/morph/event"
 	sdkclient "github.com/nspcc-dev/neofs-sdk-go/client"
 	"github.com/nspcc-dev/neofs-sdk-go/container"
@@ -586,7 +587,8 @@ func c34Main() {
 		}
 		reg = append(reg, [2]any{ci, p.RequestType().String()})
 	}
-	_ = enc.Encode(map[string]any{"kind": "consts34", "registered": reg})
+	_ = enc.Encode(map[string]any{"kind": "consts34", "registered": reg, "create_v2": fschaincontracts.CreateContainerV2Method,
+		"put_eacl": fschaincontracts.PutContainerEACLMethod, "n_alpha": len(e.alpha)})
 	var prev *payload.P2PNotaryRequest
 	var prevCase *c34Case
 	for i := 0; i < n; i++ {
